@@ -13,7 +13,7 @@ top   ::= `N` | init
 
 `new <limit> (ptr|arr) type top`  → `ok <hex data> <length slot|-> <sizeof|->`   or `err <Kind>`
 `assign <bufsize> type init`      → `ok <hex data>` (convert into a zero-filled block) or `err <Kind>`
-`wf type`                         → `ok <wf> <noVarItems> <posOpenItems> <withVar>` (0/1 each)
+`wf type`                         → `ok <wf> <noVarItems> <withVar>` (0/1 each)
 -/
 
 abbrev P := StateT (List String) Option
@@ -136,7 +136,6 @@ def errName : Err → String
   | .system => "err SystemError"
   | .memory => "err MemoryError"
   | .oob => "err OOB"
-  | .divzero => "err DIVZERO"
   | .protocol => "bad-op protocol"
 
 def optNat : Option Nat → String
@@ -169,7 +168,7 @@ def step (_ : Unit) : List String → Unit × String
     | _, _ => ((), "bad-op")
   | "wf" :: rest =>
     match pTy rest with
-    | some (ty, []) => ((), s!"ok {b01 ty.wf} {b01 ty.noVarItems} {b01 ty.posOpenItems} {b01 ty.withVar}")
+    | some (ty, []) => ((), s!"ok {b01 ty.wf} {b01 ty.noVarItems} {b01 ty.withVar}")
     | _ => ((), "bad-op")
   | _ => ((), "bad-op")
 
